@@ -144,6 +144,28 @@ def main():
         if b[2] != a[2]:
             chk.violation('temp-roots: loop "%s" ends with %d temporary roots after %d iterations and %d after %d' % (
                 r['kind'], a[2], r['n'], b[2], 4 * r['n']), src, info)
+    # ---- (C) thorough: Miri checks every dealloc layout and every access ----
+    if tier == 'thorough':
+        import mirirun
+        try:
+            mirirun.prepare()
+            d = os.path.join(work, 'miri')
+            os.makedirs(d, exist_ok=True)
+            mj = []
+            for k, t in sorted(loops.items()):
+                p = os.path.join(d, k + '.lay')
+                open(p, 'w').write(t % {'n': 4})
+                mj.append((p, ['--gc', 'every:3', '--sweep', 'alt', '--final-gc'], 1500))
+            for r in vlib.pmap(mirirun.run, mj):
+                chk.evaluations += 1
+                if r['ub']:
+                    chk.violation('miri: ' + r['ub'], {'main.lay': open(r['path']).read()}, {'stderr': r.get('stderr_tail', '')})
+                elif r['outcome'] == 'ok':
+                    chk.count('miri_programs')
+                else:
+                    chk.count('miri_not_judged')
+        except Exception as e:
+            chk.inconclusive.append('miri unavailable: %r' % (e,))
     chk.rule = ('(A) fixtures + %d generated programs (%s) under 3 collection schedules with the tracking allocator, '
                 'snapshots after every collection, per-object size check against the allocator record, intern '
                 'invariant and two forced full collections at exit, dbg (every 3rd also rel); (B) %d steady-state '
